@@ -25,6 +25,7 @@ PROFILE_MODULES = {
     "C02": "dsim.profiles.resave",
     "C03": "dsim.profiles.grid",
     "C06": "dsim.profiles.layout",
+    "C07": "dsim.profiles.package",
     "C11": "dsim.profiles.addressing",
     "C12": "dsim.profiles.merge",
     "C15": "dsim.profiles.look",
